@@ -125,9 +125,12 @@ class Effects(object):
             elif v.meta and v.meta[0] in ('elem', 'next'):
                 out |= self.roots(v.meta[1], params, depth + 1)
             elif v.meta and v.meta[0] in ('widened', 'loopvar', 'loopfield'):
-                x = v.meta[-1]
-                if isinstance(x, (Sym, App, Coll, Tup)):
-                    out |= self.roots(x, params, depth + 1)
+                xs = [v.meta[2]] if v.meta[0] == 'loopvar' else [v.meta[-1]]
+                if v.meta[0] == 'loopvar' and len(v.meta) > 3:
+                    xs.extend(v.meta[3])
+                for x in xs:
+                    if isinstance(x, (Sym, App, Coll, Tup)):
+                        out |= self.roots(x, params, depth + 1)
             return out
         if isinstance(v, App):
             if v.op in ('global', 'classattr'):
